@@ -244,6 +244,23 @@ def Backend.liveAtom : Backend → Atom
   | .sqlite => .expiryLive
   | .postgres => .expiryLivePg
 
+/-- the shapes the model assumes of either backend's read and insert statements (the delete / update shapes are shared) -/
+def Backend.fetchQuery : Backend → Stmt
+  | .sqlite => Expected.fetchQuery
+  | .postgres => ExpectedPg.fetchQuery
+
+def Backend.countQuery : Backend → Stmt
+  | .sqlite => Expected.countQuery
+  | .postgres => ExpectedPg.countQuery
+
+def Backend.scanQuery : Backend → Stmt
+  | .sqlite => Expected.scanQuery
+  | .postgres => ExpectedPg.scanQuery
+
+def Backend.insertQuery : Backend → Stmt
+  | .sqlite => Expected.insertQuery
+  | .postgres => ExpectedPg.insertQuery
+
 def doFetchB (b : Backend) (db : Db) (now : Int) (s : Sess) (kind : Kind) (cat name : String) : Option Entry :=
   match db.items.find? fun it => it.sameIdent s.pid s.key kind cat name && b.live now it with
   | none => none
@@ -257,5 +274,17 @@ def selectRowsB (b : Backend) (like : Bytes → Bytes → Bool) (db : Db) (now :
     (cat : Option String) (f : Option (Wql.Query String)) (off lim : Option Int) (desc : Bool) : List Item :=
   let rows := Store.sortById (db.items.filter fun it => it.inScope pid key kind cat && b.live now it && Store.matchFilter like f it)
   Store.window off lim (if desc then rows.reverse else rows)
+
+/-- an item with its tag list blanked: "up to the tags field" (see the header) -/
+def clearTags (it : Item) : Item := { it with tags := [] }
+
+/-! ### A small database for the witnesses and non-vacuity examples of Props/SqlSem.lean -/
+
+/-- a small database: profile 1 (key 10) with a live and an expired row (at `now` = 5000 ms), profile 2 (key 20) with a
+    row of the same plaintext identity as profile 1's live row -/
+def demoDb : Db :=
+  { items := [ { id := 1, pid := 1, key := 10, kind := 2, cat := "c", name := "a", value := [1], tags := [], expiry := none },
+               { id := 2, pid := 1, key := 10, kind := 2, cat := "c", name := "old", value := [2], tags := [], expiry := some 1000 },
+               { id := 3, pid := 2, key := 20, kind := 2, cat := "c", name := "a", value := [3], tags := [], expiry := none } ] }
 
 end Askar.Sql
